@@ -115,7 +115,21 @@ def run(ck):
     ck.cov["rule"] = ("every history of checks/nodedb.py is run on ADF and on HDF5; non-trivial = contains rename or move, a strided write and a "
                       "reopen; distinct by SHA1 of the script")
     n = 260 if thorough else 70
-    fails, dist = [], {"histories": 0, "ops": {}}
+    fails, dist = [], {"histories": 0, "ops": {}, "corpus": 0}
+    # regression histories of repaired defects run first: a difference here is a violation at once
+    cdir = os.path.join(vlib.ROOT, "corpus", "C03")
+    for fname in sorted(os.listdir(cdir)) if os.path.isdir(cdir) else []:
+        if not fname.endswith(".hist"):
+            continue
+        h = [l for l in open(os.path.join(cdir, fname)).read().split("\n") if l.strip() and not l.startswith("#")]
+        r = nodedb.run_three(h, ck.work, "corpus", exe)
+        dist["corpus"] += 1
+        ck.case(hashlib.sha1(("corpus" + fname).encode()).hexdigest(), sample={"corpus": fname, "ops": h[:6]})
+        ck.cov["traces_validated_against_impl"] += 2
+        f = nodedb.equivalence_failure(r) or nodedb.refinement_failure(r["adf"]) or nodedb.refinement_failure(r["hdf5"])
+        if f:
+            ck.violation({"corpus": fname, "script": h, "difference": f,
+                          "oracle": "ADF vs HDF5 on the same program, and each against the ideal tree"})
     for i in range(n):
         files, nops, big, wide = profile(i + 3)
         h = nodedb.gen_history(ck.rng, nops, files=files, big=big, wide=wide)
